@@ -104,6 +104,71 @@ Qed.
    the unpartitioned List, the partitioned List and the partitioned Count the model computes on the dump
    are the in-range snapshot of the dump's versions — i.e. the first three clauses of group_verdict hold
    for every group whose responses the model reproduces. *)
+Section DumpLevel.
+  Variables (s : raw_store) (fv : option bytes) (parts : partition_fn) (cur : N) (a b : bytes).
+  Hypotheses (DW : dump_wf s = true) (Aa : alpha a) (Ab : alpha b) (Lab : bcmp a b = Lt) (T : valid_parts parts a b).
+  Let V := versions_of (data_of s).
+
+  Lemma dump_bounds :
+    data_of s = raw_of V /\ wf_store V /\
+    exists cs, adjust_borders (parts (encode a 0) (encode b 0)) = Some (pairs_of (encode a 0 :: cs)) /\
+      (forall p, In p (pairs_of (encode a 0 :: cs)) ->
+         has_prefix magic (fst p) = true /\ has_prefix magic (snd p) = true /\ bcmp (fst p) (snd p) <> Gt) /\
+      (forall p, In p [(encode a 0, encode b 0)] ->
+         has_prefix magic (fst p) = true /\ has_prefix magic (snd p) = true /\ bcmp (fst p) (snd p) <> Gt).
+  Proof.
+    destruct (dump_wf_spec s DW) as [ED WF]. split; [exact ED|]. split; [exact WF|].
+    assert (LH : bcmp (encode a 0) (encode b 0) = Lt).
+    { rewrite encode_cmp by (assumption || reflexivity). unfold kr_cmp. rewrite Lab. reflexivity. }
+    destruct (c13_adjust _ a _ Aa T) as (cs & NE & AD & CH & IP & LS).
+    exists cs. split; [exact AD|]. split.
+    - apply chain_bounds_magic; try assumption; [apply encode_magic|rewrite LS; apply encode_magic].
+    - intros p [<-|[]]. cbn [fst snd]. rewrite !encode_magic, LH. repeat split; discriminate.
+  Qed.
+
+  Lemma c13_group_list_sound rev : floor_check fv (eff rev cur) = FOk ->
+    let K := in_range a b (snapshot V (eff rev cur)) in
+    list_model s fv single_part cur a b rev 0 = LResp cur K false /\
+    list_model s fv parts cur a b rev 0 = LResp cur K false.
+  Proof.
+    intros FL. cbn zeta. destruct dump_bounds as (ED & WF & cs & AD & BM & SM).
+    assert (B : b <> []) by (intros ->; exact (bcmp_nil_r a Lab)).
+    split.
+    - transitivity (list_model (raw_of V) fv single_part cur a b rev 0).
+      + rewrite <- ED. unfold list_model. destruct b as [|b0 b']; [contradiction|]. destruct (negb (bltb a (b0 :: b'))); [reflexivity|].
+        cbn [Z.ltb Z.compare]. unfold range. cbn [Z.ltb Z.compare].
+        rewrite (scan_data s fv single_part _ _ _ (RCommon 0 []) _ (adjust_single _ _) SM). reflexivity.
+      + rewrite (list_model_single V fv cur a b rev 0 WF Aa Ab Lab FL ltac:(unfold max_i64; lia)). reflexivity.
+    - transitivity (list_model (raw_of V) fv parts cur a b rev 0).
+      + rewrite <- ED. unfold list_model. destruct b as [|b0 b']; [contradiction|]. destruct (negb (bltb a (b0 :: b'))); [reflexivity|].
+        cbn [Z.ltb Z.compare]. unfold range. cbn [Z.ltb Z.compare].
+        rewrite (scan_data s fv parts _ _ _ (RCommon 0 []) _ AD BM). reflexivity.
+      + apply c13_range; assumption.
+  Qed.
+
+  Lemma c13_group_count_sound : floor_check fv cur = FOk ->
+    count_model s fv parts true cur a b = CResp cur (N.of_nat (length (in_range a b (snapshot V cur)))).
+  Proof.
+    intros FLc. destruct dump_bounds as (ED & WF & cs & AD & BM & SM).
+    transitivity (count_model (raw_of V) fv parts true cur a b).
+    - rewrite <- ED. unfold count_model. cbn [negb]. rewrite (scan_data s fv parts _ _ _ RCount _ AD BM). reflexivity.
+    - apply c13_count; assumption.
+  Qed.
+
+  (* the stream model on the dump is the stream model on the store the dump decodes to *)
+  Lemma stream_model_data rev :
+    stream_model s fv parts cur (encode a 0) (encode b 0) rev = stream_model (raw_of V) fv parts cur (encode a 0) (encode b 0) rev.
+  Proof.
+    destruct dump_bounds as (ED & WF & cs & AD & BM & SM). rewrite <- ED. unfold stream_model.
+    rewrite (scan_data s fv parts _ _ _ _ _ AD BM). reflexivity.
+  Qed.
+End DumpLevel.
+
+(* ---------- List / Count clauses of the C13 oracle ---------- *)
+(* On a dump that passes the executable well-formedness test, with the engine's recorded answer a tiling:
+   the unpartitioned List, the partitioned List and the partitioned Count the model computes on the dump
+   are the in-range snapshot of the dump's versions — i.e. the first three clauses of group_verdict hold
+   for every group whose responses the model reproduces. *)
 Theorem c13_group_list_count_sound s fv parts cur a b rev :
   dump_wf s = true -> alpha a -> alpha b -> bcmp a b = Lt -> valid_parts parts a b ->
   floor_check fv (eff rev cur) = FOk -> floor_check fv cur = FOk ->
@@ -114,30 +179,6 @@ Theorem c13_group_list_count_sound s fv parts cur a b rev :
   count_model s fv parts true cur a b = CResp cur (N.of_nat (length (in_range a b (snapshot V cur)))).
 Proof.
   intros DW Aa Ab Lab T FL FLc. cbn zeta.
-  destruct (dump_wf_spec s DW) as [ED WF]. set (V := versions_of (data_of s)) in *.
-  assert (LH : bcmp (encode a 0) (encode b 0) = Lt).
-  { rewrite encode_cmp by (assumption || reflexivity). unfold kr_cmp. rewrite Lab. reflexivity. }
-  (* adjusted partitions of the tiling *)
-  destruct (c13_adjust _ a _ Aa T) as (cs & NE & AD & CH & IP & LS).
-  assert (BM : forall p, In p (pairs_of (encode a 0 :: cs)) ->
-               has_prefix magic (fst p) = true /\ has_prefix magic (snd p) = true /\ bcmp (fst p) (snd p) <> Gt).
-  { apply chain_bounds_magic; try assumption; [apply encode_magic|rewrite LS; apply encode_magic]. }
-  assert (SM : forall p, In p [(encode a 0, encode b 0)] ->
-               has_prefix magic (fst p) = true /\ has_prefix magic (snd p) = true /\ bcmp (fst p) (snd p) <> Gt).
-  { intros p [<-|[]]. cbn [fst snd]. rewrite !encode_magic, LH. repeat split; discriminate. }
-  assert (B : b <> []) by (intros ->; exact (bcmp_nil_r a Lab)).
-  split; [|split].
-  - transitivity (list_model (raw_of V) fv single_part cur a b rev 0).
-    + rewrite <- ED. unfold list_model. destruct b as [|b0 b']; [contradiction|]. destruct (negb (bltb a (b0 :: b'))); [reflexivity|].
-      cbn [Z.ltb Z.compare]. unfold range. cbn [Z.ltb Z.compare].
-      rewrite (scan_data s fv single_part _ _ _ (RCommon 0 []) _ (adjust_single _ _) SM). reflexivity.
-    + rewrite (list_model_single V fv cur a b rev 0 WF Aa Ab Lab FL ltac:(unfold max_i64; lia)). reflexivity.
-  - transitivity (list_model (raw_of V) fv parts cur a b rev 0).
-    + rewrite <- ED. unfold list_model. destruct b as [|b0 b']; [contradiction|]. destruct (negb (bltb a (b0 :: b'))); [reflexivity|].
-      cbn [Z.ltb Z.compare]. unfold range. cbn [Z.ltb Z.compare].
-      rewrite (scan_data s fv parts _ _ _ (RCommon 0 []) _ AD BM). reflexivity.
-    + apply c13_range; assumption.
-  - transitivity (count_model (raw_of V) fv parts true cur a b).
-    + rewrite <- ED. unfold count_model. cbn [negb]. rewrite (scan_data s fv parts _ _ _ RCount _ AD BM). reflexivity.
-    + apply c13_count; assumption.
+  destruct (c13_group_list_sound s fv parts cur a b DW Aa Ab Lab T rev FL) as [L1 L2].
+  split; [exact L1|]. split; [exact L2|]. apply c13_group_count_sound; assumption.
 Qed.
